@@ -192,7 +192,20 @@ class Scheduler:
             raise _Abort()
 
     def point(self, label=None):
-        self.cur.last_label = label
+        me = self.cur
+        me.last_label = label
+        # fast path (no hand-over to the scheduler thread): the running thread stays enabled and the schedule says
+        # "continue"; records exactly what run() would record for this point
+        if not self._abort and len(self.trace) < self.horizon:
+            k = self.choices[self.ci] if self.ci < len(self.choices) else 0
+            if k == 0:
+                n = 0
+                for t in self.threads:
+                    if not t.done and t.blocked is None:
+                        n += 1
+                self.ci += 1
+                self.trace.append((n, 0, 1))
+                return
         self._yield()
 
     def block(self, on, timeout=None):
@@ -260,6 +273,14 @@ def explore_schedules(harness, bound, max_exec=None, on_exec=None, horizon=5000,
     """
     stats = {"executions": 0, "outcomes": {}, "max_points": 0, "with_preemption": 0,
              "capped": False, "horizon_hits": 0, "deadlocks": 0}
+    if line_root:
+        # warm-up (not counted): lazily initialised module state (caches, first-call imports) executes extra lines in the
+        # first execution of a process; partitions of the schedule space by point index must all see the warm numbering
+        simenv.new_world()
+        s = Scheduler([], horizon=horizon, line_root=line_root, after_calls=after_calls)
+        result = harness(s)
+        s.run()
+        result()
     stack = [([], 0)]
     while stack:
         prefix, _ = stack.pop()
@@ -282,6 +303,9 @@ def explore_schedules(harness, bound, max_exec=None, on_exec=None, horizon=5000,
         stats["outcomes"][key] = stats["outcomes"].get(key, 0) + 1
         if max_exec is not None and stats["executions"] >= max_exec:
             stats["capped"] = True
+            break
+        if stats["executions"] % 32 == 0 and simenv.expired():
+            stats["capped"] = "deadline"
             break
         # children: deviate at every point after the prefix
         # cost model: "preemption" = only switching away from a still-enabled thread costs (CHESS);
